@@ -808,6 +808,26 @@ pub fn loop_family(pool: &Pool) -> Vec<T> {
             }
         }
     }
+    // three levels of nesting (the flattening of a loop of a loop is decided pair by pair), and loops merged by
+    // concat's R.R^[i,j] rule next to an outer loop
+    {
+        let inner: Vec<(u32, Option<u32>)> = vec![(2, Some(3)), (3, Some(4)), (2, Some(2))];
+        let mid: Vec<(u32, Option<u32>)> = vec![(1, None), (0, None), (1, Some(2)), (2, Some(2))];
+        let outer: Vec<(u32, Option<u32>)> = vec![(2, Some(2)), (1, Some(2)), (2, None), (0, Some(1))];
+        for body in bodies.iter().take(2) {
+            for &(i, j) in &inner {
+                for &(k, l) in &mid {
+                    for &(m, n) in &outer {
+                        v.push(T::Loop(Box::new(T::Loop(Box::new(T::Loop(b(body), i, j)), k, l)), m, n));
+                    }
+                }
+                let l1 = T::Loop(b(body), i, j);
+                v.push(T::Pow(Box::new(T::Cat2(b(&l1), Box::new(T::Opt(b(&l1))))), 2));
+                v.push(T::Loop(Box::new(T::Cat2(b(&l1), Box::new(T::Star(b(&l1))))), 1, Some(2)));
+                v.push(T::Pow(Box::new(T::Cat2(Box::new(T::Opt(b(&l1))), b(&l1))), 2));
+            }
+        }
+    }
     // through the SMT-LIB-named constructors as well
     let a = T::Chr(pool.a);
     for n in 2..=4u32 {
